@@ -98,3 +98,77 @@ Example C06_nonvacuous_rows :
        [VInt 2; VInt 21; VInt 2; VInt 7; VInt 2; VInt 21]; [VInt 2; VInt 21; VInt 2; VInt 8; VInt 2; VInt 21];
        [VInt 4; VInt 40; VNull; VNull; VInt 4; VInt 40]]).
 Proof. vm_compute. reflexivity. Qed.
+
+(* ====================================================================================================
+   ORACLE vs. THEOREM (Proofs/SelectOracle.v). The correspondence run judges what Go returned with
+   sm_c06 (Spec/SelectObs.v), on queries whose FROM clause is one join tree j:
+     - join_sem d j defined, no aggregates / LIMIT / OFFSET (plain_query), WHERE / select list / ORDER BY
+       meaningful (sem_joined): Go must return the declarative header, a permutation of the declarative rows
+       (join_sem, then WHERE, then the projection), sorted by the ORDER BY keys;
+     - join_sem d j undefined because an ON condition that is evaluated on at least one pair of rows names a
+       column the engine has to reject (unresolved_evaluated): Go must not return rows;
+     - everything else is accepted (outside C06).
+   mm_select is the comparison of Go's answer with `select` (the whole pipeline around nested_loop_join).
+   hyp_c06 (boolean, on the case): the select list is not empty (sql.Parser's SelectList is do-while), the
+   tables are what storage.Fetch returns (db_wf: one value per column, one Go type per column), no FULL join
+   in the tree (the grammar has none, ParseSpec.wf_tref; nestedLoopJoin has no case for it and returns no
+   rows WITHOUT evaluating the ON condition). Under it, agreement of the model with Go implies acceptance.
+   The link to C06_join: select_core returns join_sem's rows up to a permutation (C06_join_perm), WHERE and
+   the projection commute with permutations, the model's sort returns a sorted permutation. *)
+From Mkdb Require Import Spec.SelectObs Proofs.SelectOracle.
+
+Theorem C06_agreement_implies_acceptance : forall c,
+  hyp_c06 c = true -> mm_select c = true -> sm_c06 c = true.
+Proof. exact c06_agreement_implies_acceptance. Qed.
+Print Assumptions C06_agreement_implies_acceptance.
+
+(* non-vacuity: the LEFT-then-RIGHT join above under WHERE, a projection with an alias and ORDER BY k DESC
+   (six rows tie on k = 2): Go returns the tie group in another order; the case is in the oracle's scope
+   (wt_c06), agrees and is accepted; with a row changed it neither agrees nor is accepted *)
+Definition ag_q : select_stmt :=
+  mkSelect [mkDC (SPExpr (EVal (XCol (mkCol "x" "k")))) ""; mkDC (SPExpr (EVal (XCol (mkCol "t2" "b")))) "b2";
+            mkDC (SPExpr (EVal (XCol (mkCol "y" "a")))) ""]
+           [ex_j] (Some (EPred (XCol (mkCol "y" "k")) CLte (XLit (VInt 2)))) [] [mkSort (mkCol "" "k") SDesc] false false 0 0.
+
+Example C06_agreement_nonvacuous :
+  let hdr := [("x", "k"); ("t2", "b2"); ("y", "a")] in
+  let good := (ex_db, ag_q, GOk hdr [[VInt 2; VInt 8; VInt 21]; [VInt 2; VInt 7; VInt 20]; [VInt 2; VInt 7; VInt 21];
+                                     [VInt 2; VInt 8; VInt 20]; [VInt 2; VInt 8; VInt 21]; [VInt 2; VInt 7; VInt 21];
+                                     [VInt 1; VNull; VInt 10]]) in
+  let bad := (ex_db, ag_q, GOk hdr [[VInt 2; VInt 8; VInt 21]; [VInt 2; VInt 7; VInt 20]; [VInt 2; VInt 7; VInt 21];
+                                    [VInt 2; VInt 8; VInt 20]; [VInt 2; VInt 8; VInt 20]; [VInt 2; VInt 7; VInt 21];
+                                    [VInt 1; VNull; VInt 10]]) in
+  hyp_c06 good = true /\ wt_c06 good = true /\ mm_select good = true /\ sm_c06 good = true /\
+  mm_select bad = false /\ sm_c06 bad = false.
+Proof. vm_compute. repeat split; reflexivity. Qed.
+
+(* an unknown column in an ON condition: model and Go refuse, the oracle accepts the refusal *)
+Example C06_agreement_nonvacuous_reject :
+  let j := TRJoin (TRName "t1" None) JLeft (TRName "t2" None) (EPred (XCol (mkCol "t1" "k")) CEq (XCol (mkCol "t2" "nosuch"))) in
+  let q := mkSelect [mkDC SPStar ""] [j] None [] [] false false 0 0 in
+  let c := (ex_db, q, GErr EFieldNotFound) in
+  unresolved_evaluated ex_db j = true /\ hyp_c06 c = true /\ mm_select c = true /\ sm_c06 c = true.
+Proof. vm_compute. repeat split; reflexivity. Qed.
+
+(* each part of hyp_c06 is needed: without it the oracle rejects the model's own behaviour.
+   (1) empty select list: projectColumns indexes selectList[0], the model panics *)
+Example C06_agreement_needs_select_list :
+  let c := (ex_db, mkSelect [] [ex_j] None [] [] false false 0 0, GPanic) in
+  hyp_c06 c = false /\ mm_select c = true /\ sm_c06 c = false.
+Proof. vm_compute. repeat split; reflexivity. Qed.
+
+(* (2) a column holding an int and a string under ORDER BY: the sort comparison panics *)
+Example C06_agreement_needs_db_wf :
+  let c := ([("t", ["a"], [[VInt 1]; [VStr "x"]])],
+            mkSelect [mkDC SPStar ""] [TRName "t" None] None [] [mkSort (mkCol "" "a") SAsc] false false 0 0, GPanic) in
+  hyp_c06 c = false /\ mm_select c = true /\ sm_c06 c = false.
+Proof. vm_compute. repeat split; reflexivity. Qed.
+
+(* (3) FULL join with an unknown column in ON: nestedLoopJoin returns no rows and no error (the switch has
+   no case), the oracle demands a refusal. Not reachable from SQL text (no FULL in the grammar). *)
+Example C06_agreement_needs_no_full_join :
+  let j := TRJoin (TRName "t1" None) JFull (TRName "t2" None) (EPred (XCol (mkCol "" "nosuch")) CEq (XLit (VInt 1))) in
+  let c := (ex_db, mkSelect [mkDC SPStar ""] [j] None [] [] false false 0 0,
+            GOk [("t1", "k"); ("t1", "a"); ("t2", "k"); ("t2", "b")] []) in
+  hyp_c06 c = false /\ mm_select c = true /\ sm_c06 c = false.
+Proof. vm_compute. repeat split; reflexivity. Qed.
